@@ -71,6 +71,28 @@ def _quiet():
 # ======================================================================================
 # scripted single-thread runs
 # ======================================================================================
+class frozen_heap:
+    """The schedulers call gc.collect() in their environment steps (a dropped reference must die at once).  A full collection
+    costs time linear in the number of tracked objects, and the records of the runs pile up: with the thorough / escalated budgets
+    (~20 000 runs after ~5 000 scripts) the loops became quadratic (a run against a tree whose translation is broken took 50 min).
+    Everything allocated so far is moved to the permanent generation (gc.freeze) for the duration of the loop, and again every
+    `every` iterations, so a collection only walks what the loop itself allocated.  Objects still die by reference count."""
+    def __init__(self, every=100):
+        self.every, self.n = every, 0
+
+    def __enter__(self):
+        gc.collect(); gc.freeze()
+        return self
+
+    def tick(self):
+        self.n += 1
+        if self.n % self.every == 0:
+            gc.collect(); gc.freeze()
+
+    def __exit__(self, *a):
+        gc.unfreeze()
+
+
 def gen_script(rng, spec, nkeys, length):
     ops, nret = [], 0
     live = []
@@ -99,9 +121,10 @@ def gen_script(rng, spec, nkeys, length):
 def scripted_runs(ctx, n_per_flavour):
     rng = ctx.subrng("scripts")
     out = []
-    with S.gettz_env():
+    with S.gettz_env(), frozen_heap() as fh:
         for spec in FLAVOURS:
             for i in range(n_per_flavour):
+                fh.tick()
                 cap = rng.choice([0, 1, 2, 3, 5, 8])
                 fac = S.make_factory(spec, cap)
                 ops = gen_script(rng, spec, fac.nkeys, rng.randrange(5, 60))
@@ -222,12 +245,13 @@ def threaded_runs(ctx):
     runs = []
     ctx._c18_shape = []
     max_runs = ctx.budget(160, 700)
-    with S.gettz_env():
+    with S.gettz_env(), frozen_heap(every=50) as fh:
         for ci, (spec, cap, scripts, bound) in enumerate(FIXED_CASES):
             b = bound if ctx.tier == "thorough" or ctx.escalated else (1 if len(scripts) <= 2 else 0)   # quick: small bounds, meant to be exhaustive
             def make(spec=spec, cap=cap, scripts=scripts):
                 return S.make_factory(spec, cap), scripts
             def on_run(rec, fac, scripts, spec=spec, cap=cap, ci=ci):
+                fh.tick()
                 runs.append(summarize(rec, spec, cap, scripts, {"policy": "prefix", "case": ci}))
             try:
                 ex, distinct, exhaustive = S.explore(make, b, max_runs, on_run)
@@ -238,6 +262,7 @@ def threaded_runs(ctx):
             def make(spec=spec, cap=cap, scripts=scripts):
                 return S.make_factory(spec, cap), scripts
             def on_run(rec, fac, scripts, spec=spec, cap=cap, ci=ci):
+                fh.tick()
                 runs.append(summarize(rec, spec, cap, scripts, {"policy": "prefix", "case": "fine%d" % ci, "fine": True}))
             try:
                 b = bound if ctx.tier == "thorough" or ctx.escalated else (1 if len(scripts) <= 2 else 0)
@@ -247,6 +272,7 @@ def threaded_runs(ctx):
                 ctx._c18_shape.append("%s: %s" % (spec, ex))
         rng = ctx.subrng("threads")
         for i in range(ctx.budget(150, 2000)):
+            fh.tick()
             spec, cap, scripts = gen_case(rng)
             seed = rng.randrange(1 << 30)
             rate = rng.choice([0.0, 0.05, 0.15])
@@ -331,8 +357,9 @@ THOROUGH_GRID = False
 
 def grid():
     out = []
-    years = (1900, 1917, 1941, 1969, 1970, 1987, 1999, 2000, 2007, 2015, 2020, 2024, 2037, 2050, 2099) if THOROUGH_GRID \
-        else (1917, 1970, 2000, 2015, 2024, 2050)
+    # (1800 and 2200: before the first / after the last transition of every 32-bit table -> ttinfo_before / ttinfo_std)
+    years = (1800, 1900, 1917, 1941, 1969, 1970, 1987, 1999, 2000, 2007, 2015, 2020, 2024, 2037, 2050, 2099, 2200) if THOROUGH_GRID \
+        else (1800, 1917, 1970, 2000, 2015, 2024, 2050, 2200)
     days = ((1, 0, 30), (9, 2, 30), (14, 1, 59), (28, 12, 0), (25, 1, 30), (31, 23, 59)) if THOROUGH_GRID \
         else ((9, 2, 30), (28, 1, 30), (31, 23, 59))
     for y in years:
@@ -358,7 +385,10 @@ def behaviour(z, g=None):
     for dt in g:
         for fold in (0, 1):
             a = dt.replace(tzinfo=z, fold=fold)
-            out.append((a.utcoffset(), a.dst(), a.tzname()))
+            try:
+                out.append((a.utcoffset(), a.dst(), a.tzname()))
+            except Exception as ex:      # noqa
+                out.append(("raised", type(ex).__name__, None))
         try:
             out.append(z.fromutc(dt.replace(tzinfo=z)).replace(tzinfo=None))
         except Exception as ex:      # noqa
@@ -401,7 +431,40 @@ def zone_pool(tzenv):
                   ("CET-1CEST,M3.5.0,M10.5.0/3", False)):
         add("tzstr(%r,%r)" % (s, px), tz.tzstr(s, px))
     add("tzstr.instance('EST5EDT')", tz.tzstr.instance("EST5EDT"))
+    # the LABEL of a tzfile (filename= argument, path string, archive member name) is not part of its value: zones with the same
+    # label and different data must not compare equal ("equal zones report equal offsets at every instant")
+    import io
+    root = "/usr/share/zoneinfo"
+    def data(n):
+        q = os.path.join(root, n)
+        return open(q, "rb").read() if os.path.isfile(q) else None
+    for lab, names in (("same-label", ("Europe/Paris", "America/New_York", "Europe/Paris")),
+                       (os.path.join(root, "Europe/Paris"), ("Asia/Kolkata",)), ("", ("Europe/Dublin", "Asia/Kolkata"))):
+        for k, n in enumerate(names):
+            d = data(n)
+            if d is not None:
+                add("tzfile(BytesIO(%s)#%d,filename=%r)" % (n, k, lab), tz.tzfile(io.BytesIO(d), filename=lab))
+    for n in ("Europe/Paris", "America/New_York"):
+        d = data(n)
+        if d is not None:
+            z = _archive_member("Zone/Member", d)
+            if z is not None:
+                add("archive[Zone/Member<-%s]" % n, z)
     return zs
+
+
+def _archive_member(member, data):
+    """the entry `member` of a ZoneInfoFile archive built in memory around one TZif file"""
+    import io, tarfile
+    from dateutil.zoneinfo import ZoneInfoFile
+    buf = io.BytesIO()
+    with tarfile.open(fileobj=buf, mode="w:gz") as tf:
+        ti = tarfile.TarInfo(member); ti.size = len(data)
+        tf.addfile(ti, io.BytesIO(data))
+    buf.seek(0)
+    with warnings.catch_warnings():
+        warnings.simplefilter("ignore")
+        return ZoneInfoFile(buf).get(member)
 
 
 def has_weekday(z):
@@ -605,6 +668,8 @@ def correspondence(ctx):
             ctx.mismatch(q.split()[0], {"tz": d[0], "a": d[1], "b": d[2], "wire": q}, e, g)
     ctx.count("zone_eq_pairs", len(reqs) // 2)
     ctx.traces += len(reqs)
+    # ---- copies and pickles: the reduce / rebuild model ----
+    reduce_correspondence(ctx)
 
 
 # ======================================================================================
@@ -683,11 +748,133 @@ def oracle(ctx):
         ctx.sample({"op": "resolve", "name": rs[0]["name"], "tzpaths": rs[0]["tzpaths"], "result": rs[0]["impl"]})
     # ---- single-thread identity on the process-wide factories ----
     direct_identity(ctx, tz)
+    # ---- local-zone names under a TZ switch: never cached, always the zone of the moment ----
+    local_names_tz_switch(ctx, tz)
     # ---- equality laws, equal offsets, copies and pickles ----
     for env in TZENVS:
         with S.pinned_tz(env):
             zone_laws(ctx, tz, env)
     ctx.hist["preinitialised_singleton"] = int(tz.tzutc._TzSingleton__instance is tz.UTC)
+
+
+def local_names_tz_switch(ctx, tz, only=None):
+    """HISTORY with the process zone as an input: gettz(<abbreviation of the process zone>) is answered with a tzlocal() when the
+    name is neither a zoneinfo key nor a TZ string.  A tzlocal mirrors the environment at construction, so gettz must hand out a
+    NEW one on every call and must never retain it (neither in the weak instance map nor in the LRU): after TZ changes (tzset)
+    the same name must reflect the new zone, exactly like gettz.nocache(name) and tzlocal() do."""
+    import time
+    if not hasattr(time, "tzset"):
+        ctx.count("local_name_switch_skipped_no_tzset"); return
+    rng = ctx.subrng("local-names")
+    known = set(S.zoneinfo_names())
+    seqs = [("XYZT", ["XYZT4", "XYZT-9", "XYZT4"]), ("QQQ", ["QQQ-3", "QQQ5QQD,M3.2.0,M11.1.0", "QQQ-3:30"]),
+            ("WXYZ", ["WXYZ3WXYD", "WXYZ-11", "AAA2WXYZ,M3.2.0,M11.1.0"])]
+    for _ in range(ctx.budget(6, 40)):
+        nm = "".join(rng.choice("BCDFGHJKLMNPQRSTVWXZ") for _ in range(rng.choice((3, 4, 5))))
+        if nm in known or tz.gettz.nocache(nm) is not None and False:
+            continue
+        envs = []
+        for _ in range(rng.choice((2, 3, 4))):
+            off = rng.choice((-11, -9, -5, -3, 0, 2, 4, 5, 8, 12))
+            envs.append("%s%d" % (nm, off) if rng.random() < 0.7 else "%s%d%sD,M3.2.0,M11.1.0" % (nm, off, nm[:3]))
+        seqs.append((nm, envs))
+    if only is not None:
+        seqs = [(only["name"], only["tzs"])]
+    probes = [datetime.datetime(2021, 1, 15, 12, 0), datetime.datetime(2021, 7, 15, 12, 0)]
+    for name, tzs in seqs:
+        tz.gettz.cache_clear()
+        held = []                                  # keep every earlier object referenced: a weak map would still find it
+        for step, env in enumerate(tzs):
+            with S.pinned_tz(env):
+                if name not in time.tzname:
+                    ctx.count("local_name_not_in_tzname"); continue
+                a = tz.gettz(name); b = tz.gettz(name); f = tz.gettz.nocache(name); want = tz.tzlocal()
+                case = {"op": "local_name_switch", "name": name, "tzs": tzs, "step": step}
+                if not isinstance(a, tz.tzlocal):
+                    ctx.case(("local-name", name, tuple(tzs), step), nontrivial=False); ctx.count("local_name_resolves_elsewhere"); continue
+                ctx.case(("local-name", name, tuple(tzs), step)); ctx.count("local_name_switch_step%d" % min(step, 2))
+                probs = []
+                if a is b:
+                    probs.append("gettz(%r) handed out the same tzlocal object twice (a zone that mirrors the process zone must not be cached)" % name)
+                if any(a is h or b is h for h in held):
+                    probs.append("gettz(%r) returned a tzlocal built under an earlier TZ setting" % name)
+                for z, lab in ((a, "gettz"), (b, "gettz#2"), (f, "gettz.nocache")):
+                    if not (z == want) or [p.replace(tzinfo=z).utcoffset() for p in probes] != [p.replace(tzinfo=want).utcoffset() for p in probes]:
+                        probs.append("%s(%r) under TZ=%s does not reflect the process zone: %s vs tzlocal() %s" % (
+                            lab, name, env, [str(p.replace(tzinfo=z).utcoffset()) for p in probes],
+                            [str(p.replace(tzinfo=want).utcoffset()) for p in probes]))
+                held += [a, b]
+                for pr in probs[:1]:
+                    ctx.violation(pr, case, probs)
+        tz.gettz.cache_clear()
+
+
+def reduce_correspondence(ctx):
+    """copy / pickle MODEL (Model/Reduce.lean, op reduce.rt) against the implementation: for every zone of the pool and every
+    protocol 0..5 the shape of `z.__reduce_ex__(p)` (copyreg._reconstructor(cls, datetime.tzinfo, tzinfo()) / copyreg.__newobj__(cls) with the whole `__dict__` as
+    state; tzfile: (cls, (None, _filename), __dict__)), and the attribute dictionary of what pickle / copy.copy / copy.deepcopy
+    rebuild, attribute by attribute (values abstracted to classes up to ==)."""
+    import copyreg
+    from dateutil import tz
+    import dateutil.zoneinfo as dzi
+    names = {tz.tzutc: "tzutc", tz.tzoffset: "tzoffset", tz.tzlocal: "tzlocal", tz.tzrange: "tzrange", tz.tzstr: "tzstr", tz.tzfile: "tzfile"}
+    reqs, meta = [], []
+    with S.pinned_tz("EST5EDT"):
+        pool = zone_pool("EST5EDT")
+        for label, z in pool:
+            cls = names.get(type(z))
+            if cls is None:
+                # dateutil.zoneinfo.tzfile reduces to (zoneinfo.gettz, (name,)): the shared per-process archive entry, not a state copy
+                if isinstance(z, dzi.tzfile):
+                    ctx.count("reduce_zoneinfo_tzfile_by_name")
+                    red = z.__reduce__()
+                    if not (red[0] is dzi.gettz and red[1] == (z._filename,)):
+                        ctx.mismatch("reduce.shape", label, "(zoneinfo.gettz, (name,))", repr(red)[:200])
+                continue
+            d = dict(z.__dict__)
+            keys = sorted(d)
+            pool_vals = []
+            def cls_of(v):
+                for i, x in enumerate(pool_vals):
+                    try:
+                        if type(x) is type(v) and x == v:
+                            return i
+                    except Exception:
+                        pass
+                pool_vals.append(v)
+                return len(pool_vals) - 1
+            wire = ",".join("%s:%d" % (k, cls_of(d[k])) for k in keys) or "-"
+            for p in range(0, pickle.HIGHEST_PROTOCOL + 1):
+                red = z.__reduce_ex__(p)
+                if cls == "tzfile":
+                    shape = "call" if (red[0] is type(z) and red[1] == (None, z._filename) and red[2] is z.__dict__) else "other:" + repr(red[:2])[:80]
+                elif red[0] is copyreg._reconstructor and len(red[1]) == 3 and red[1][0] is type(z) and red[1][1] is datetime.tzinfo \
+                        and type(red[1][2]) is datetime.tzinfo:
+                    shape = "reconstructor"
+                elif red[0] is copyreg.__newobj__ and red[1] == (type(z),):
+                    shape = "newobj"
+                else:
+                    shape = "other:" + repr(red[:2])[:80]
+                state = red[2] if len(red) > 2 else None
+                if shape in ("reconstructor", "newobj") and (state or {}) != d:
+                    shape += ":state-is-not-__dict__"
+                variants = [("pickle%d" % p, pickle.loads(pickle.dumps(z, p)))]
+                if p == 4:
+                    variants += [("copy", copy.copy(z)), ("deepcopy", copy.deepcopy(z))]
+                for how, c in variants:
+                    cd = c.__dict__
+                    vals = ",".join("%s=%s" % (k, cls_of(cd[k]) if k in cd else "-") for k in keys)
+                    extra = sorted(set(cd) - set(d))
+                    line = "ok %s %s %s;eq=%d" % (shape, names.get(type(c), type(c).__name__), vals, int(bool(c == z) and not (c != z)))
+                    if extra:
+                        line += " extra=" + ",".join(extra)
+                    reqs.append("reduce.rt %d %s %s" % (p, cls, wire)); meta.append((label, how, line))
+    got = ctx.driver(reqs)
+    for (label, how, line), g in zip(meta, got):
+        ctx.traces += 1
+        ctx.count("reduce_rt:" + how.rstrip("012345"))
+        if line != g:
+            ctx.mismatch("reduce.rt", {"zone": label, "how": how}, line[:300], g[:300])
 
 
 def direct_identity(ctx, tz):
@@ -940,6 +1127,12 @@ def replay(ctx, payload):
             tree.close()
         print("gettz.nocache(%r): impl %s, documented order %s" % (c["name"], impl, spec))
         return impl == spec
+    if c.get("op") == "local_name_switch":
+        sub = type(ctx)(ctx.prop, ctx.tier, ctx.seed)
+        local_names_tz_switch(sub, tz, only=c)
+        for v in sub.violations[:5]:
+            print(v["what"])
+        return not sub.violations
     if c.get("op") == "cache_clear_identity":
         a = tz.gettz(c["name"]); tz.gettz.cache_clear(); b = tz.gettz(c["name"])
         print("gettz(%r): same object after cache_clear: %s" % (c["name"], a is b))
